@@ -10,6 +10,7 @@ from vf.common import Mismatch, Recorder, drive, fmt_exc, reset_mygrad
 from vf import gen
 from vf.gen import Builder, draw_shape, shape_variant
 from vf.ref import OPS
+from vf import layers_ref  # noqa: F401  (registers the layer ops)
 
 PROPERTY = "C02"
 RULE = (
